@@ -80,6 +80,8 @@ package mvp6_0
 //@ func (*CPU).Run
 //@   assume-before (*memoryManagementUnit).flush: wfMMU(m.memoryManagementUnit) && m.memoryManagementUnit.l3.lineLength == 64 && allocated(m.memoryManagementUnit.ctx.Memory) && (forall j :: 0 <= j && j < len(m.memoryManagementUnit.l3.lines) ==> !sameArray(m.memoryManagementUnit.l3.lines[j].Data, m.memoryManagementUnit.ctx.Memory) && int32(m.memoryManagementUnit.l3.lines[j].Boundary[0]) <= 1073741824)
 //@   requires wired(m)
+//@   -- (C12) a run that returns without error reports a positive cycle count
+//@   ensures result1 == nil ==> result >= 1
 //@   nooverflow cycle, m.counterFlush
 //@   loop 0: invariant cycle >= 0 && wired(m)
 //@   loop 0: exit writesDone(m)
